@@ -103,9 +103,40 @@ Fixpoint map_insert (k : bytes) (v : value) (m : list (bytes * value)) : list (b
       else (k, v) :: r
   end.
 
-(* the [visit] closure of decodePacket; fuel bounds the nesting depth, the
-   inner loops are bounded by the remaining input (every item consumes at
+(* the two loops of decodePacket's [visit] closure, parametrised by the
+   recursive call; bounded by the remaining input (every item consumes at
    least one byte, and visit panics on empty input) *)
+Fixpoint dec_items (decf : bytes -> dres (value * bytes)) (k : nat) (cnt : Z) (bs : bytes)
+                   (acc : list value) {struct k} : dres (value * bytes) :=
+  if cnt <=? 0 then DOk (VArr (rev acc), bs) else
+  match k with
+  | O => DPanic
+  | S k' =>
+      match decf bs with
+      | DOk (v, r2) => dec_items decf k' (cnt - 1) r2 (v :: acc)
+      | DFail => DFail
+      | DPanic => DPanic
+      end
+  end.
+
+Fixpoint dec_entries (decf : bytes -> dres (value * bytes)) (k : nat) (cnt : Z) (bs : bytes)
+                     (acc : list (bytes * value)) {struct k} : dres (value * bytes) :=
+  if cnt <=? 0 then DOk (VMap acc, bs) else
+  match k with
+  | O => DPanic
+  | S k' =>
+      match readLP bs with
+      | None => DFail
+      | Some (key, r1) =>
+          match decf r1 with
+          | DOk (v, r2) => dec_entries decf k' (cnt - 1) r2 (map_insert key v acc)
+          | DFail => DFail
+          | DPanic => DPanic
+          end
+      end
+  end.
+
+(* the [visit] closure of decodePacket; fuel bounds the nesting depth *)
 Fixpoint dec (fuel : nat) (bs : bytes) : dres (value * bytes) :=
   match fuel with
   | O => DPanic
@@ -128,38 +159,12 @@ Fixpoint dec (fuel : nat) (bs : bytes) : dres (value * bytes) :=
           else if kind =? 5 then
             match read32 r with
             | None => DFail
-            | Some (count, r') =>
-                (fix items (k : nat) (cnt : Z) (bs : bytes) (acc : list value) {struct k} :=
-                   if cnt <=? 0 then DOk (VArr (rev acc), bs) else
-                   match k with
-                   | O => DPanic
-                   | S k' =>
-                       match dec f bs with
-                       | DOk (v, r2) => items k' (cnt - 1) r2 (v :: acc)
-                       | DFail => DFail
-                       | DPanic => DPanic
-                       end
-                   end) (S (length r')) count r' []
+            | Some (count, r') => dec_items (dec f) (S (length r')) count r' []
             end
           else if kind =? 6 then
             match read32 r with
             | None => DFail
-            | Some (count, r') =>
-                (fix entries (k : nat) (cnt : Z) (bs : bytes) (acc : list (bytes * value)) {struct k} :=
-                   if cnt <=? 0 then DOk (VMap acc, bs) else
-                   match k with
-                   | O => DPanic
-                   | S k' =>
-                       match readLP bs with
-                       | None => DFail
-                       | Some (key, r1) =>
-                           match dec f r1 with
-                           | DOk (v, r2) => entries k' (cnt - 1) r2 (map_insert key v acc)
-                           | DFail => DFail
-                           | DPanic => DPanic
-                           end
-                       end
-                   end) (S (length r')) count r' []
+            | Some (count, r') => dec_entries (dec f) (S (length r')) count r' []
             end
           else DPanic                       (* panic("Invalid packet") *)
       end
